@@ -164,7 +164,12 @@ func (l *s3Lister) listCompleted(ctx context.Context, filter map[string]map[int3
 		}
 
 		ok, err := l.hasFooterMagic(ctx, entry.kfsKey)
-		if err != nil || !ok {
+		if err != nil {
+			// A failed probe says nothing about the segment. Leaving it out would
+			// let the processor commit past it while handling the later ones.
+			return nil, fmt.Errorf("probe footer of %s: %w", entry.kfsKey, err)
+		}
+		if !ok {
 			continue
 		}
 
